@@ -133,7 +133,7 @@ def printDecl : Decl → List Tok
        | some (ss, some e) => tk .BraceLeft :: printStmts ss ++ tk .Return :: tk .Colon :: printExpr e ++ [tk .BraceRight])
   | .struct fl name ws members =>
     printFlags fl ++ tk (match ws with | none => .Struct | some n => wordKind n) :: tId name ::
-      tk .BraceLeft :: printMembers members ++ [tk .BraceRight]
+      (if fl.isOpaque then [tk .Semicolon] else tk .BraceLeft :: printMembers members ++ [tk .BraceRight])
 
 def printModule (ds : List Decl) : List Tok :=
   (ds.flatMap printDecl) ++ [tk .EndOfSource, tk .EndOfSource]
